@@ -1,4 +1,4 @@
-PROP = {"engines": [("list", "iter", 3000), ("slist", "iter", 2500), ("array", "iter", 4000), ("deque", "iter", 4000), ("hashtable", "iter", 2500), ("tst", "iter", 1500), ("treetable", "iter", 1500)],
+PROP = {"engines": [("list", "iter", 3000), ("slist", "iter", 2500), ("array", "iter", 4000), ("sized", "iter", 2000), ("deque", "iter", 4000), ("hashtable", "iter", 2500), ("tst", "iter", 1500), ("treetable", "iter", 1500)],
         "level_text": "Coq theorems per engine relating the concrete iterator to an ideal cursor (next, fresh-iterator completeness at every fill level, remove/add/replace after a yield, "
                       "index, zip lockstep). Correspondence: all well-formed iterator programs (next/remove/add/replace/index, at most one structural change per yield) of length <= 4 "
                       "(5 thorough) over containers of size 0-4 in every layout class (empty, single, exactly full, wrapped, after earlier mutations), zip programs on pairs of "
